@@ -165,7 +165,7 @@ VMM["JOP_MAKE_BUFFER"] = own("JOP_MAKE_BUFFER", "stack[D] = janet_wrap_buffer(bu
 TUP = ("        stack[D] = janet_wrap_tuple(tup);", "        stack[D + 1] = janet_wrap_tuple(tup);")
 VMM["JOP_MAKE_TUPLE"] = TUP
 VMM["JOP_MAKE_BRACKET_TUPLE"] = TUP
-VMM["JOP_ERROR"] = own("JOP_ERROR", "vm_return(JANET_SIGNAL_ERROR, stack[A]);", "vm_return(JANET_SIGNAL_ERROR, stack[A + 1]);")
+VMM["JOP_ERROR"] = own("JOP_ERROR", "vm_return(JANET_SIGNAL_ERROR, stack[D]);", "vm_return(JANET_SIGNAL_ERROR, stack[D + 1]);")
 VMM["JOP_TYPECHECK"] = own("JOP_TYPECHECK", "vm_assert_types(stack[A], E);", "vm_assert_types(stack[E], E);")
 VMM["JOP_RETURN"] = own("JOP_RETURN", "Janet retval = stack[D];", "Janet retval = stack[D + 1];")
 VMM["JOP_RETURN_NIL"] = own("JOP_RETURN_NIL", "Janet retval = janet_wrap_nil();", "Janet retval = stack[A];")
